@@ -169,6 +169,7 @@ EXIT_LABELS = {
     "gcp": {19, 20, 21, 32, 33, 22, 23, 24, 25, 17, 18}, "glue": {20, 21, 17, 18},
 }
 ARR_WAIT = "<arrayer-wait>"
+DRAIN_LIMIT = 3000
 
 
 # ------------------------------------------------------------------ fakes shared by the rigs
@@ -478,9 +479,9 @@ class Rig:
     def all_done(self):
         return all(self.ctl.status(n) == "done" or n.startswith("A") for n in self.ctl.names())
 
-    def drain(self, limit=3000):
+    def drain(self, limit=None):
         """Run every thread to the end (scheduler first, then submission threads, arrayer when it has work, monitors)."""
-        for _ in range(limit):
+        for _ in range(limit or DRAIN_LIMIT):
             if self.all_done():
                 return True
             order = ["S"] + [n for n in self.ctl.names() if n.startswith("U")]
@@ -496,7 +497,7 @@ class Rig:
 
 
 # ------------------------------------------------------------------ model comparison
-_STEP_RX = re.compile(r"^\((\S+) (\(flag .*\(crash i\d+\)) \(hit [TF]\) \(S (\S+)\) \(mons ([^)]*)\) \(subs ([^)]*)\) \(lost (\([^)]*\))\)\)$")
+_STEP_RX = re.compile(r"^\((\S+) (\(flag .*\(crash i\d+\)) \(hit ([TF])\) \(S (\S+)\) \(mons ([^)]*)\) \(subs ([^)]*)\) \(lost (\([^)]*\))\)\)$")
 
 
 def lab(variant, tok):
@@ -507,7 +508,7 @@ def lab(variant, tok):
     return LABELS[variant].get(int(tok[1:]), ("?", "?label-%s" % tok))
 
 
-def compare(ctx, case, variant, trace, reply):
+def compare(ctx, case, variant, trace, reply, hit=None):
     parts = reply.split(" | ")
     if len(parts) != len(trace) + 1:
         ctx.mismatch("C10 model reply has a different number of steps", case, model=len(parts) - 1, impl=len(trace))
@@ -520,7 +521,7 @@ def compare(ctx, case, variant, trace, reply):
         m = _STEP_RX.match(part)
         if not m:
             raise Infra("C10 driver reply not understood: " + part[:300])
-        tok, mst, s_tok, mons_tok, subs_tok, _lost = m.groups()
+        tok, mst, hit_tok, s_tok, mons_tok, subs_tok, _lost = m.groups()
         want = ("", ARR_WAIT) if ev == "A" else lab(variant, tok)
         if want != executed:
             ctx.mismatch(f"step {k} ({ev}): executed line differs", case, model=repr(want), impl=repr(executed))
@@ -534,6 +535,10 @@ def compare(ctx, case, variant, trace, reply):
             ctx.mismatch(f"step {k} ({ev}): next lines differ", case, model=f"S:{lab(variant, s_tok)} M:{m_mons} U:{m_subs}",
                          impl=f"S:{snext} M:{mons} U:{subs}")
             return False
+    mfin = re.search(r"\(hit ([TF])\)", parts[-1])
+    if hit is not None and mfin and (mfin.group(1) == "T") != hit:
+        ctx.mismatch("ghost `hit` (a job recorded while a monitor was on its exit path) differs", case, model=mfin.group(1), impl=hit)
+        return False
     return True
 
 
@@ -550,6 +555,13 @@ def oracle(ctx, case, rig, finished):
     if rig.sched.crashes:
         ctx.violation(f"C10-{v}-monitor-crash", "a monitor thread failed: " + rig.sched.crashes[0], case,
                       expected="no reject_job(None, ...)", actual=rig.sched.crashes, kind="interleaving")
+        ok = False
+    if not finished and not case.get("partial"):
+        missing = sorted(set(range(rig.njobs)) - set(rep))
+        ctx.violation(f"C10-{v}-never-quiescent", f"job(s) {missing} not reported and the threads do not come to rest within "
+                      f"{DRAIN_LIMIT} further steps although the fake API completes every job at the next poll "
+                      f"(is_running={rig.flag()}, pending={rig.pend()}, queue={rig.queue()})", case,
+                      expected="every submitted job reported as done or failed", actual=dict(reported=rep), kind="interleaving")
         ok = False
     if finished:
         recorded = rig.pend() + rig.queue() + rep
@@ -627,10 +639,23 @@ def witness_scripts():
 def random_schedule(rig, rng, nsteps):
     cur = "S"
     stick = rng.choice([0.3, 0.6, 0.8, 0.9])
-    for _ in range(nsteps):
+    adversarial = rng.random() < 0.5     # prefer the scheduler thread while a monitor is on its exit path, and
+    for _ in range(nsteps):               # a monitor while a Glue submission thread holds a job
         evs = rig.enabled_events()
         if not evs:
             break
+        if adversarial and rng.random() < 0.7:
+            if "S" in evs and rig.exiting_monitor():
+                rig.do("S")
+                cur = "S"
+                continue
+            holding = any((rig.next_label(n) or ("", ""))[1].startswith(("job_id = self.submit_pending_job", "if job_id is None"))
+                          for n in rig.ctl.names() if n.startswith("U"))
+            ms = [e for e in evs if e.startswith("M")]
+            if holding and ms:
+                cur = ms[-1]
+                rig.do(cur)
+                continue
         if cur not in evs or rng.random() > stick:
             weights = [0.3 if e == "A" and not rig.queue() else 1.0 for e in evs]
             cur = rng.choices(evs, weights)[0]
@@ -643,6 +668,8 @@ def exec_case(ctx, variant, njobs, script=None, rng=None, nsteps=0, events=None,
             for ev in events:
                 rig.do(ev)
             finished = rig.all_done()
+            if not finished:
+                finished = rig.drain()
         else:
             if script is not None:
                 directed(rig, script)
@@ -663,7 +690,7 @@ def finish_cases(ctx, recs):
         if reply in ("bad-op", "bad-value"):
             raise Infra("C10 driver rejected the request: " + reply)
         full = r["full"]
-        r["same"] = compare(ctx, full, full["variant"], r["trace"], reply)
+        r["same"] = compare(ctx, full, full["variant"], r["trace"], reply, hit=r["hit"])
         key = (full["variant"], full["njobs"], tuple(full["sched"])) if r["switches"] > 0 else None
         ctx.case(key=key, sample={"executor": full["variant"], "jobs": full["njobs"], "steps": len(r["trace"]),
                                   "switches": r["switches"], "lost": r["lost"]},
